@@ -41,6 +41,10 @@ class State:
         self.viz = viz
         self.force_cfg = False
         self.nfiles = 2          # number of source files that contain commands (1..6)
+        self.proj_rel = PROJ_REL   # project path relative to the sandbox root
+        self.out_rel = OUT_REL     # output path relative to the sandbox root (normalised)
+        self.out_cfg = None        # spelling of the output path in the configuration (None = "./" + out_rel)
+        self.proj_cfg = None
 
     def key(self):
         return json.dumps([self.attrs, self.has_cmds, self.has_events, self.viz, self.nfiles], sort_keys=True)
@@ -151,8 +155,8 @@ pub fn tick(window: tauri::Window) {
     else:
         ev_rs = "pub fn notify() {}\n"
     cfg = {
-        "project_path": "./" + PROJ_REL,
-        "output_path": "./" + OUT_REL,
+        "project_path": st.proj_cfg or ("./" + st.proj_rel),
+        "output_path": st.out_cfg or ("./" + st.out_rel),
         "validation_library": "none" if a["mode"] else "zod",
         "default_parameter_case": "snake_case" if a["param_case"] else "camelCase",
         "default_field_case": "camelCase" if a["field_case"] else "snake_case",
@@ -166,30 +170,43 @@ pub fn tick(window: tauri::Window) {
         b_rs = "// moved into a.rs\n"
     files = {}
     for k in range(3, st.nfiles + 1):
-        files[PROJ_REL + "/src/cmds/extra/m%d.rs" % k] = (
+        files[st.proj_rel + "/src/cmds/extra/m%d.rs" % k] = (
             "use serde::{Deserialize, Serialize};\n\n#[derive(Serialize, Deserialize)]\npub struct Item%d {\n    pub label: String,\n    pub next: Option<u32>,\n}\n\n"
             "%spub fn item_%d(item: Item%d) -> Vec<Item%d> {\n    vec![item]\n}\n" % (k, cmd, k, k, k))
     files.update({
-        PROJ_REL + "/src/models.rs": models,
-        PROJ_REL + "/src/cmds/a.rs": a_rs,
-        PROJ_REL + "/src/cmds/deep/b.rs": b_rs,
-        PROJ_REL + "/src/events.rs": ev_rs,
-        PROJ_REL + "/src/main.rs": "mod models;\nmod events;\nfn main() {}\n",
-        PROJ_REL + "/target/debug/build/decoy.rs": "#[tauri::command]\npub fn decoy_in_target() {}\n",
-        PROJ_REL + "/README.md": "not rust\n",
+        st.proj_rel + "/src/models.rs": models,
+        st.proj_rel + "/src/cmds/a.rs": a_rs,
+        st.proj_rel + "/src/cmds/deep/b.rs": b_rs,
+        st.proj_rel + "/src/events.rs": ev_rs,
+        st.proj_rel + "/src/main.rs": "mod models;\nmod events;\nfn main() {}\n",
+        st.proj_rel + "/target/debug/build/decoy.rs": "#[tauri::command]\npub fn decoy_in_target() {}\n",
+        st.proj_rel + "/README.md": "not rust\n",
         "typegen.json": json.dumps(cfg, indent=1, sort_keys=True),
     })
     return files
 
 
-FOREIGN = {
-    OUT_REL + "/notes.md": "my notes\n",
-    OUT_REL + "/helper.ts": "export const helper = 1;\n",
-    OUT_REL + "/types.ts.bak": "backup\n",
-    OUT_REL + "/sub/types.ts": "// nested, not ours\n",
-    "src/app.ts": "import * as api from './generated';\n",
-    "package.json": "{}\n",
-}
+def foreign_files(out_rel, rich=False):
+    f = {
+        out_rel + "/notes.md": "my notes\n",
+        out_rel + "/helper.ts": "export const helper = 1;\n",
+        out_rel + "/types.ts.bak": "backup\n",
+        out_rel + "/sub/types.ts": "// nested, not ours\n",
+        "src/app.ts": "import * as api from './generated';\n",
+        "package.json": "{}\n",
+    }
+    if rich:
+        f.update({
+            out_rel + "/Types.ts": "// case differs\n",
+            out_rel + "/main.ts": "console.log(1);\n",
+            out_rel + "/.typecache.bak": "{}\n",
+            out_rel + "/mytypes.ts": "export {};\n",
+            out_rel + "/index.tsx": "export {};\n",
+            out_rel + "/commands.ts.orig": "orig\n",
+            out_rel + "/README": "readme\n",
+            out_rel + "/sub/index.ts": "// nested\n",
+        })
+    return f
 
 
 def file_hash(p):
@@ -278,15 +295,16 @@ def out_meta(outdir):
 
 
 class Sandbox:
-    def __init__(self, root, state, config_name="typegen.json"):
+    def __init__(self, root, state, config_name="typegen.json", rich_foreign=False):
         self.root = root
         self.state = state
+        self.out_rel = state.out_rel
         self.events = []
         self.oracle_cache = {}
         self.runs = 0
         os.makedirs(root, exist_ok=True)
         self.write_state()
-        for rel, text in FOREIGN.items():
+        for rel, text in foreign_files(self.out_rel, rich_foreign).items():
             p = os.path.join(root, rel)
             os.makedirs(os.path.dirname(p), exist_ok=True)
             with open(p, "w") as f:
@@ -325,14 +343,14 @@ class Sandbox:
 
     def env_lose(self, f):
         name = FILE_OF.get(f, f)
-        p = os.path.join(self.root, OUT_REL, name)
+        p = os.path.join(self.root, self.out_rel, name)
         if os.path.exists(p):
             os.remove(p)
         self.events.append({"event": "Env", "kind": "lose", "what": name})
 
     def env_corrupt(self, f):
         name = FILE_OF.get(f, f)
-        p = os.path.join(self.root, OUT_REL, name)
+        p = os.path.join(self.root, self.out_rel, name)
         with open(p, "w") as fh:
             fh.write("{ this is not a cache record")
         self.events.append({"event": "Env", "kind": "corrupt", "what": name})
@@ -340,13 +358,13 @@ class Sandbox:
     def env_tamper(self, f):
         """overwrite a generated file with foreign content of the same name (C14: force must rewrite it)"""
         name = FILE_OF.get(f, f)
-        p = os.path.join(self.root, OUT_REL, name)
+        p = os.path.join(self.root, self.out_rel, name)
         with open(p, "w") as fh:
             fh.write("// tampered\n")
         self.events.append({"event": "Env", "kind": "lose", "what": name})
 
     def env_place(self, name, text="foreign\n"):
-        p = os.path.join(self.root, OUT_REL, name)
+        p = os.path.join(self.root, self.out_rel, name)
         os.makedirs(os.path.dirname(p), exist_ok=True)
         with open(p, "w") as f:
             f.write(text)
@@ -354,14 +372,14 @@ class Sandbox:
 
     def env_obstruct(self, name):
         """a directory where the file should go"""
-        p = os.path.join(self.root, OUT_REL, name)
+        p = os.path.join(self.root, self.out_rel, name)
         if os.path.isfile(p):
             os.remove(p)
         os.makedirs(p, exist_ok=True)
         self.events.append({"event": "Env", "kind": "lose", "what": name})
 
     def env_clear(self, name):
-        p = os.path.join(self.root, OUT_REL, name)
+        p = os.path.join(self.root, self.out_rel, name)
         if os.path.isdir(p):
             shutil.rmtree(p)
         self.events.append({"event": "Env", "kind": "clear", "what": name})
@@ -383,7 +401,7 @@ class Sandbox:
                 with open(p, "w") as f:
                     f.write(text)
             r = runner.cli(["generate", "-c", "typegen.json", "--force"], tmp)
-            outs = runner.read_outputs(os.path.join(tmp, OUT_REL))
+            outs = runner.read_outputs(os.path.join(tmp, self.out_rel))
             variants.append({n: runner.strip_timestamp(t) for n, t in outs.items()})
             if i == 1 and variants[0] == variants[1]:
                 break
@@ -410,6 +428,16 @@ class Sandbox:
                 cmd += extra_args
         elif driver == "build":
             cmd = [C.TTH, "build"]
+        elif driver == "init":
+            tc = os.path.join(self.root, self.state.proj_rel, "tauri.conf.json")
+            if not os.path.exists(tc):
+                with open(tc, "w") as f:
+                    f.write(json.dumps({"productName": "demo", "build": {"devUrl": "http://localhost:1420"},
+                                        "plugins": {"shell": {"open": True}}}, indent=2))
+                before = tree_hashes(self.root)
+            cmd = [C.CLI, "tauri-typegen", "init", "-p", self.state.proj_cfg or ("./" + self.state.proj_rel),
+                   "-g", self.state.out_cfg or ("./" + self.out_rel),
+                   "-v", "none" if self.state.attrs["mode"] else "zod"]
         else:
             raise ValueError(driver)
         st = ["strace", "-f", "-qq", "-o", strace_out,
@@ -418,7 +446,7 @@ class Sandbox:
         ordered = True
         if fault:
             kind, fkey = fault
-            target = os.path.join(self.root, OUT_REL, FILE_OF[fkey])
+            target = os.path.join(self.root, self.out_rel, FILE_OF[fkey])
             ordered = False
             if kind == "failopen":
                 inj = "inject=openat:error=EACCES"
@@ -432,10 +460,10 @@ class Sandbox:
                 injected_kill = True
             # -P matches the literal path argument when the file does not exist yet: give the
             # spellings the tool uses (output_path + "/" + name, relative to the sandbox root) too
-            rel1 = "./" + OUT_REL + "/" + FILE_OF[fkey]
-            rel2 = OUT_REL + "/" + FILE_OF[fkey]
+            rel1 = "./" + self.out_rel + "/" + FILE_OF[fkey]
+            rel2 = self.out_rel + "/" + FILE_OF[fkey]
             st = ["strace", "-f", "-qq", "-o", strace_out, "-P", target, "-P", rel1, "-P", rel2, "-e", tr, "-e", inj]
-        before_meta = out_meta(os.path.join(self.root, OUT_REL))
+        before_meta = out_meta(os.path.join(self.root, self.out_rel))
         self.events.append({"event": "RunStart", "driver": driver, "forced": bool(forced), "flag": bool(flag), "cfg": bool(cfg),
                             "fault": "%s@%s" % fault if fault else "none"})
         env = dict(os.environ)
@@ -456,8 +484,9 @@ class Sandbox:
         else:
             status = "err"
         up = "bindings are up to date" in out
-        outdir = os.path.normpath(os.path.join(self.root, OUT_REL))
-        cfgpath = os.path.normpath(os.path.join(self.root, "typegen.json"))
+        outdir = os.path.normpath(os.path.join(self.root, self.out_rel))
+        cfgpath = os.path.normpath(os.path.join(self.root, self.state.proj_rel, "tauri.conf.json")) if driver == "init" \
+            else os.path.normpath(os.path.join(self.root, "typegen.json"))
         sysevs = parse_strace(strace_out, self.root)
         if fault and fault[0] in ("failwrite", "crash") and os.path.exists(strace_out):
             # with -P only the target's descriptors are traced: a failing / killed write() belongs to it
@@ -507,7 +536,7 @@ class Sandbox:
         self.events.append({"event": "RunEnd", "status": status, "upToDate": bool(up), "exit": rc,
                             "injectedKill": injected_kill, "wroteNothing": bool(wrote_nothing)})
         snap = self.snapshot(before, probe_skip=probe_skip or status != "ok", driver=driver)
-        after_meta = out_meta(os.path.join(self.root, OUT_REL))
+        after_meta = out_meta(os.path.join(self.root, self.out_rel))
         snap["outChanged"] = sorted(n for n in set(before_meta) | set(after_meta) if before_meta.get(n) != after_meta.get(n))
         self.events.append(snap)
         if os.path.exists(strace_out):
@@ -517,7 +546,7 @@ class Sandbox:
 
     def snapshot(self, before, probe_skip=False, driver="cli"):
         variants = self.oracle()
-        outdir = os.path.join(self.root, OUT_REL)
+        outdir = os.path.join(self.root, self.out_rel)
         have = {n: runner.strip_timestamp(t) for n, t in runner.read_outputs(outdir).items()}
         expected = sorted(n for n in variants[0] if n != ".typecache")
         files = {}
@@ -531,15 +560,17 @@ class Sandbox:
         if not files:
             files = {"_none": "current"}
         after = tree_hashes(self.root)
-        reserved_out = lambda rel: os.path.dirname(os.path.normpath(rel)) == os.path.normpath(OUT_REL)
+        reserved_out = lambda rel: os.path.dirname(os.path.normpath(rel)) == os.path.normpath(self.out_rel)
         changed = []
         for rel in sorted(set(before) | set(after)):
             if before.get(rel) == after.get(rel):
                 continue
-            if rel.rstrip("/") == OUT_REL or OUT_REL.startswith(rel.rstrip("/") + "/"):
+            if rel.rstrip("/") == self.out_rel or self.out_rel.startswith(rel.rstrip("/") + "/"):
                 continue
             if reserved_out(rel) and not rel.endswith("/"):
                 continue        # files directly in the output directory are judged by the Sys events
+            if driver == "init" and os.path.normpath(rel) == os.path.normpath(os.path.join(self.state.proj_rel, "tauri.conf.json")):
+                continue        # init may rewrite the configuration file it was pointed at
             changed.append(rel)
         would = "unknown"
         if probe_skip:
@@ -560,7 +591,7 @@ class Sandbox:
             shutil.rmtree(tmp, ignore_errors=True)
 
 
-def replay_history(root, hist, has_events, viz, case, driver_override=None, nfiles=2):
+def replay_history(root, hist, has_events, viz, case, driver_override=None, nfiles=2, setup=None, rich_foreign=False):
     """hist: list of TLC tuples (["edit",c] / ["events",b] / ["commands",b] / ["lose",f] / ["place","probe"] /
     ["run",driver,forced,faultkind,at] / ["end",status,skipped]).  Returns (events, predicted_vs_real list)."""
     # has_events / viz are the FINAL values TLC printed; a toggle entry carries the value AFTER the
@@ -576,7 +607,9 @@ def replay_history(root, hist, has_events, viz, case, driver_override=None, nfil
             break
     st = State(has_events=has_events, viz=viz)
     st.nfiles = nfiles
-    sb = Sandbox(root, st)
+    if setup:
+        setup(st, root)
+    sb = Sandbox(root, st, rich_foreign=rich_foreign)
     sb.events.append({"event": "Reset", "case": case})
     cmp = []
     pending = None
